@@ -26,23 +26,6 @@ def errJ : Err → Json
 
 def pickKept {α : Type} (keep : List Bool) (l : List α) : List α := ((List.zip keep l).filter (·.1)).map (·.2)
 
-def pickIdx {α : Type} (idx : List Nat) (l : List α) : List α := idx.filterMap (l[·]?)
-
-/-- the reference table with rows picked by position -/
-def colPick (idx : List Nat) : Col → Col
-  | .ints v => .ints (pickIdx idx v)
-  | .strs v => .strs (pickIdx idx v)
-  | .floats v => .floats (pickIdx idx v)
-  | .intLists v => .intLists (pickIdx idx v)
-  | .bools v => .bools (pickIdx idx v)
-  | .strLists v => .strLists (pickIdx idx v)
-  | .floatLists v => .floatLists (pickIdx idx v)
-
-def resPick (sel : Option (List Nat)) (r : Nat × List Col) : Nat × List Col :=
-  match sel with
-  | none => r
-  | some idx => ((pickIdx idx (List.range r.1)).length, r.2.map (colPick idx))
-
 def findFmt (n : String) : Except String Schema :=
   match Gen.C02.all.find? (·.1 == n) with
   | some p => pure p.2
